@@ -156,6 +156,30 @@ Fixpoint mrun (m : minfo) (ops : list mop) : minfo * list mret :=
   | o :: r => let '(m1, x) := mstep m o in let '(m2, xs) := mrun m1 r in (m2, x :: xs)
   end.
 
+(* copy(): an independent, unfinalized record with the same entries.  Histories over the original and (at most)
+   one copy of it: operations on the original, copy() of the original, operations on the copy. *)
+Inductive mop2 := M2Orig (o : mop) | M2Copy | M2OnCopy (o : mop).
+Definition mstate2 : Type := minfo * option minfo.
+Definition mi_copy (m : minfo) : minfo := {| mi_nodes := mi_nodes m; mi_lock := false |}.
+
+Definition mstep2 (s : mstate2) (o : mop2) : mstate2 * mret :=
+  match o with
+  | M2Orig op => let '(m, r) := mstep (fst s) op in ((m, snd s), r)
+  | M2Copy => ((fst s, Some (mi_copy (fst s))), RNone)
+  | M2OnCopy op => match snd s with
+                   | Some c => let '(c', r) := mstep c op in ((fst s, Some c'), r)
+                   | None => (s, RNone)
+                   end
+  end.
+
+Fixpoint mrun2 (s : mstate2) (ops : list mop2) : mstate2 * list mret :=
+  match ops with
+  | [] => (s, [])
+  | o :: r => let '(s1, x) := mstep2 s o in let '(s2, xs) := mrun2 s1 r in (s2, x :: xs)
+  end.
+
+Definition on_original (o : mop2) : bool := match o with M2Orig _ => true | _ => false end.
+
 Definition k_state : str := S"state".
 Definition k_deadline : str := S"deadline".
 Definition k_end : str := S"expected_end".
